@@ -20,7 +20,7 @@ FROZEN = {
 }
 
 
-def run(ctx):
+def _run_base(ctx):
     repo, cg = ctx.repo, ctx.cg
     ctx.rule('R11.1', 'every differ returns a builder result (validated()), [], or the result of another differ: ordering/duplicate refusal live in one place', floor=9)
     ctx.rule('R11.2', 'no empty nested patch: op_patch is reached only through the builders\' patch() under `if diff:`; push_patch_decision wraps only non-empty diffs', floor=4)
@@ -235,3 +235,10 @@ def _ok_result(repo, cg, fn, e, defs, differset, seen):
             return False
         return bool(vals) and all(_ok_result(repo, cg, fn, v, defs, differset, seen) for v in vals)
     return False
+
+
+def run(ctx):
+    ctx.rule('R11.7', 'the differs and diff utilities never test a diff key by truthiness', floor=8)
+    _run_base(ctx)
+    from ..keys import key_truthiness
+    key_truthiness(ctx, 'R11.7', ['nbdime.diffing.', 'nbdime.diff_format', 'nbdime.diff_utils', 'nbdime.patching'], 'an entry at index 0 / key "" is dropped or mis-ordered')
